@@ -8,8 +8,11 @@ package props
 // still finish the handshake, neither side may accept an application message.
 
 import (
+	"context"
 	"encoding/binary"
 	"fmt"
+	"github.com/bbockelm/cedar/stream"
+	"strings"
 	"verif/netsim"
 
 	"github.com/bbockelm/cedar/security"
@@ -156,7 +159,46 @@ func c04Exec(sh c04Shape, flt *c04Fault) *c04Run {
 		run.r.C.Resumed = true
 		return run
 	}
-	run.r = hsRun(hsOpts{ClientCfg: cc, ServerCfg: sc, App: true, HookC2S: mk("c2s"), HookS2C: mk("s2c")})
+	// application phase: three messages each way, and a receiver that carries on after a
+	// receive error (a handler that skips an unreadable message): on a tampered channel
+	// not one of them may be accepted, not only the first
+	ctx := context.Background()
+	persist := func(st *stream.Stream) ([]byte, error) {
+		var got []byte
+		var first error
+		for i := 0; i < 3; i++ {
+			m, err := st.ReceiveCompleteMessage(ctx)
+			if err != nil {
+				if first == nil {
+					first = err
+				}
+				continue
+			}
+			got = append(got, m...)
+		}
+		return got, first
+	}
+	clientAfter := func(p *hsParty) error {
+		for i := 1; i <= 3; i++ {
+			if err := p.Stream.SendMessage(ctx, []byte(fmt.Sprintf("ping-%d;", i))); err != nil {
+				return err
+			}
+		}
+		var err error
+		p.AppGot, err = persist(p.Stream)
+		return err
+	}
+	serverAfter := func(p *hsParty) error {
+		var err error
+		p.AppGot, err = persist(p.Stream)
+		for i := 1; i <= 3; i++ {
+			if e := p.Stream.SendMessage(ctx, []byte(fmt.Sprintf("pong-%d;", i))); e != nil {
+				return e
+			}
+		}
+		return err
+	}
+	run.r = hsRun(hsOpts{ClientCfg: cc, ServerCfg: sc, ClientAfter: clientAfter, ServerAfter: serverAfter, HookC2S: mk("c2s"), HookS2C: mk("s2c")})
 	if run.r.S.Neg != nil {
 		security.GetSessionCache().Invalidate(run.r.S.Neg.SessionId)
 	}
@@ -173,7 +215,7 @@ func c04Layout(sh c04Shape) (c2s, s2c []int, err error) {
 		}
 		return []int{len(r.C2S[0])}, nil, nil
 	}
-	if r.C.Err != nil || r.S.Err != nil || string(r.S.AppGot) != "ping-from-client" || string(r.C.AppGot) != "pong-from-server" {
+	if r.C.Err != nil || r.S.Err != nil || string(r.S.AppGot) != "ping-1;ping-2;ping-3;" || string(r.C.AppGot) != "pong-1;pong-2;pong-3;" {
 		return nil, nil, fmt.Errorf("honest %s handshake failed: client %v server %v app %v/%v", sh.name, r.C.Err, r.S.Err, r.C.AppErr, r.S.AppErr)
 	}
 	if !r.C.Stream.IsEncrypted() || !r.S.Stream.IsEncrypted() {
@@ -182,12 +224,12 @@ func c04Layout(sh c04Shape) (c2s, s2c []int, err error) {
 	if sh.resumed && !(r.C.Resumed && r.S.Resumed) {
 		return nil, nil, fmt.Errorf("honest resumed shape was not a resumption (client %v server %v)", r.C.Resumed, r.S.Resumed)
 	}
-	// cleartext = everything but the ping (c2s) and the post-auth ad + pong (s2c);
+	// cleartext = everything but the pings (c2s) and the post-auth ad + pongs (s2c);
 	// for a resumption the reply is cleartext and there is no post-auth ad.
-	nc := len(r.C2S) - 1
-	ns := len(r.S2C) - 2
+	nc := len(r.C2S) - 3 // three pings
+	ns := len(r.S2C) - 4 // post-auth ad + three pongs
 	if sh.resumed {
-		ns = len(r.S2C) - 1
+		ns = len(r.S2C) - 3
 	}
 	for _, f := range r.C2S[:nc] {
 		c2s = append(c2s, len(f))
@@ -201,7 +243,7 @@ func c04Layout(sh c04Shape) (c2s, s2c []int, err error) {
 func C04Plan() *vlib.Plan {
 	p := &vlib.Plan{
 		Property: "C04", Level: "fault_enumeration",
-		Rule:   "E-FAULT: for each handshake shape (no authentication, CLAIMTOBE, TOKEN, resumed session, session resumed by a scripted requester that asks for no reply - cleartext in one direction only; both sides REQUIRE encryption) a pre-pass records the cleartext frame layout; then one fault per run through a relay between two real endpoints: every byte offset of every cleartext frame (header and payload) x substitutes, an empty frame (flag 0 / 1) inserted before every frame, every frame removed / duplicated / split at its midpoint, every adjacent same-direction pair merged. Oracle: fault applied and any application message accepted by either side => violation. Non-trivial = the fault was applied to a live frame (distinct (shape, direction, frame, fault) by construction).",
+		Rule:   "E-FAULT: for each handshake shape (no authentication, CLAIMTOBE, TOKEN, resumed session, session resumed by a scripted requester that asks for no reply - cleartext in one direction only; both sides REQUIRE encryption) a pre-pass records the cleartext frame layout; then one fault per run through a relay between two real endpoints: every byte offset of every cleartext frame (header and payload) x substitutes, an empty frame (flag 0 / 1) inserted before every frame, every frame removed / duplicated / split at its midpoint, every adjacent same-direction pair merged. Application phase: three messages each way and receivers that carry on after a receive error. Oracle: fault applied and any application message accepted by either side => violation. Non-trivial = the fault was applied to a live frame (distinct (shape, direction, frame, fault) by construction).",
 		Assume: []string{"frame layout of the cleartext path is value-independent (lengths recorded in the pre-pass; offsets beyond a live frame are counted as skipped)", "session ids / ECDH keys / nonces are random per run: faults are addressed by position, not value"},
 	}
 	p.Gen = func(tier string, yield func(vlib.Case)) {
@@ -249,7 +291,16 @@ func C04Plan() *vlib.Plan {
 					nClear = len(s2c)
 				}
 				if flt.kind == "dup" && flt.frame+1 >= nClear {
-					accepted = (flt.dir == "s2c" && len(r.C.AppGot) > 0) || (flt.dir == "c2s" && len(r.S.AppGot) > 0 && string(r.S.AppGot) != "ping-from-client" && string(r.S.AppGot) != "ping-from-requester")
+					// (the receiver rejects the stray copy and may then go on to the genuine
+					// messages: only something OTHER than the genuine messages counts)
+					genuine := func(got []byte, word string) bool {
+						rest := string(got)
+						for i := 1; i <= 3; i++ {
+							rest = strings.Replace(rest, fmt.Sprintf("%s-%d;", word, i), "", 1)
+						}
+						return rest == "" || rest == "ping-from-requester"
+					}
+					accepted = (flt.dir == "s2c" && !genuine(r.C.AppGot, "pong")) || (flt.dir == "c2s" && !genuine(r.S.AppGot, "ping"))
 					if !accepted {
 						res.Outcome("post-negotiation-injection-rejected-by-receiver")
 						return res
